@@ -77,12 +77,12 @@ Proof. exact mean_gt_half. Qed.
 Print Assumptions C14_mean.
 Example C14_mean_ex :
   let b r := ([(0%nat, audit_ranks r)], [(0%nat, gen_ballot [1;2;3]%nat r)]) in
-  let bs := [b [1;2]%nat; b [3;1]%nat; b [2]%nat; ([], [])] in
+  let bs : list (acvr * gcvr) := [b [1;2]%nat; b [3;1]%nat; b [2]%nat; ([], [])] in
   Forall (fun ag => related [1;2;3]%nat (fst ag) (snd ag) 0%nat) bs /\ bs <> [] /\
-  Qred (Qmean (map (fun ag => assort_json 0%nat [1;2;3]%nat (JNEN 1 2 [3]%nat) (fst ag)) bs)) = (5 # 8)%Q.
+  Qred (Qmean (map (fun ag => assort_json 0%nat [1;2;3]%nat (JNEN 1%nat 2%nat [3]%nat) (fst ag)) bs)) = (5 # 8)%Q.
 Proof.
-  split.
-  - repeat constructor.
+  cbv zeta. split.
+  - apply Forall_cons; [|apply Forall_cons; [|apply Forall_cons; [|apply Forall_cons; [|apply Forall_nil]]]]; cbn [fst snd].
     + apply (related_ranking _ [1;2]%nat); try reflexivity; [repeat constructor; simpl; intuition discriminate|].
       intros x [H|[H|[]]]; subst; simpl; auto.
     + apply (related_ranking _ [3;1]%nat); try reflexivity; [repeat constructor; simpl; intuition discriminate|].
@@ -138,19 +138,19 @@ Print Assumptions C14_readers_assort.
 Example C14_readers_ex :
   let T n := mktok n None in
   let t0 := mktok 40%nat (Some 2) in
-  let headers := [[T 30; T 5; mktok 41 (Some 3); T 11; T 12; T 13; T 0; T 11; T 2; mktok 42 (Some 4)];
-                  [T 30; T 6; mktok 40 (Some 2); T 12; T 14; T 0; T 14]]%nat in
+  let headers := [[T 30; T 5; mktok 41 (Some 3%Z); T 11; T 12; T 13; T 0; T 11; T 2; mktok 42 (Some 4%Z)];
+                  [T 30; T 6; mktok 40 (Some 2%Z); T 12; T 14; T 0; T 14]]%nat in
   let blines := [[T 5; T 20; T 12; T 11]; [T 6; T 20; T 14]; [T 5; T 21]; [T 5; T 20; T 13; T 11; T 12]]%nat in
   tint t0 = Some (Z.of_nat (length headers)) /\
   Forall (bline_ok (contest_info_of headers)) blines /\
   from_raire ([t0] :: headers ++ blines)
-  = [(20, [(5, [(13, 1); (11, 2); (12, 3)]); (6, [(14, 1)])]); (21, [(5, [])])]%nat /\
+  = [(20, [(5, [(13, 1%Z); (11, 2%Z); (12, 3%Z)]); (6, [(14, 1%Z)])]); (21, [(5, [])])]%nat /\
   load_contests_from_raire ([t0] :: headers ++ blines)
-  = ([(5, ([11; 12; 13], 7)); (6, ([12; 14], 1))],
-     [(20, [(5, [(11, 1); (12, 2); (13, 0)]); (6, [(14, 0)])]); (21, [(5, [])])])%nat.
+  = ([(5, ([11; 12; 13], 7%Z)); (6, ([12; 14], 1%Z))],
+     [(20, [(5, [(11, 1%Z); (12, 2%Z); (13, 0%Z)]); (6, [(14, 0%Z)])]); (21, [(5, [])])])%nat.
 Proof.
   cbv zeta. split; [reflexivity|]. split.
-  - repeat constructor.
+  - apply Forall_cons; [|apply Forall_cons; [|apply Forall_cons; [|apply Forall_cons; [|apply Forall_nil]]]].
     + eexists _, _, _. split; [reflexivity|]. split; [repeat constructor; simpl; intuition discriminate|].
       intros x [H|[H|[]]]; subst; vm_compute; auto.
     + eexists _, _, _. split; [reflexivity|]. split; [repeat constructor; simpl; intuition discriminate|].
@@ -171,10 +171,11 @@ Theorem C14_retally : forall (name : key) (cvrs : list (key * gcvr)),
 Proof. exact retally_all. Qed.
 Print Assumptions C14_retally.
 Example C14_retally_ex :
-  let cvrs := [(20, [(5, [(11, 1); (12, 2); (13, 0)]); (6, [(14, 0)])]); (21, [(5, [(12, 0)])]);
-               (22, [(6, [(12, 0)])]); (23, [(5, [(11, 0); (13, 1)])])]%nat in
-  gen_nen 5%nat 11%nat 12%nat [13%nat] cvrs = (RNEN 5 11 12 [13], 2, 1)%nat /\
-  gen_neb 5%nat 11%nat 12%nat cvrs = (RNEB 5 11 12, 1, 1)%nat /\
+  let cvrs : list (key * gcvr) :=
+    [(20, [(5, [(11, 1%Z); (12, 2%Z); (13, 0%Z)]); (6, [(14, 0%Z)])]); (21, [(5, [(12, 0%Z)])]);
+     (22, [(6, [(12, 0%Z)])]); (23, [(5, [(11, 0%Z); (13, 1%Z)])])]%nat in
+  gen_nen 5%nat 11%nat 12%nat [13%nat] cvrs = (RNEN 5 11 12 [13], 2%Z, 1%Z)%nat /\
+  gen_neb 5%nat 11%nat 12%nat cvrs = (RNEB 5 11 12, 1%Z, 1%Z)%nat /\
   (* what the pre-fix code stored (a key that is never `in cvr`) would not re-tally *)
   retally_w (RNEN 99 11 12 [13])%nat cvrs = 0.
 Proof. cbv zeta. repeat split; vm_compute; reflexivity. Qed.
